@@ -113,7 +113,12 @@ def pattern_oracle(ctx, results: List[Dict[str, Any]]) -> Dict[str, int]:
     return stats
 
 
-def classify_schema_error(msg: str) -> str:
+def classify_schema_error(msg: str, diamonds=frozenset()) -> str:
+    # a diamond references the group of the common ancestor twice: with optional / list
+    # properties in that group the doubled sequence is not even deterministic (UPA)
+    m = re.search(r"complex type '(\w+)_t': The content model is not determinist", msg)
+    if m and m.group(1) in diamonds:
+        return "diamond-inherited-properties-twice"
     if "overlap and are in the same 'choice' group" in msg:
         return "schema-invalid-duplicate-choice-element"
     if "pattern" in msg.lower() or "regular expression" in msg.lower() or "escape" in msg.lower():
@@ -168,7 +173,8 @@ def model_oracle(ctx, models, results) -> Dict[str, Any]:
                                  "regular-expression grammar: " + err,
                                  dict(ident, facet=p, model_text=m["text"]), err, "models", how)
         if res.get("schema_errors"):
-            cats = sorted({classify_schema_error(e) for e in res["schema_errors"]})
+            dia = ({gx.lcc(c) for c in gx.diamond_classes(m["mm"])} if m["mm"] is not None else set())
+            cats = sorted({classify_schema_error(e, dia) for e in res["schema_errors"]})
             ctx.impl_failure(cats[0], "the generated schema is not a valid XML Schema",
                              dict(ident, model_text=m["text"]), res["schema_errors"][:3], "models", how)
             continue
@@ -208,7 +214,7 @@ def model_oracle(ctx, models, results) -> Dict[str, Any]:
 
 def streams(ctx: lib.Ctx) -> None:
     # 1. patterns: correspondence inside Coq + oracle
-    results = gx.pattern_stream(ctx, ctx.n(160, 2400), ctx.n(20, 40))
+    results = gx.pattern_stream(ctx, ctx.n(160, 800), ctx.n(20, 30))
     pstats = pattern_oracle(ctx, results)
     nontriv = [r["pattern"] for r in results
                if re.search(r"\\[xuU]|\[|[*+?{]", r["pattern"])]
@@ -220,11 +226,11 @@ def streams(ctx: lib.Ctx) -> None:
         ctx.sample({"pattern": r["pattern"], "translate": r["translate"]})
 
     # 2. meta-models: real CLI -> schema -> SDK documents
-    models = gx.gen_models(ctx.rng, ctx.n(5, 40))
+    models = gx.gen_models(ctx.rng, ctx.n(5, 16))
     # hand-built shapes: lists of classes with descendants, one constrained primitive at
     # several sites with different tightenings, values with nothing for XSD to emit
-    models += gx.gen_sites_models(ctx.rng, ctx.n(3, 9))
-    mres = gx.run_models(models, n_docs=ctx.n(40, 60), mutants_per_doc=0)
+    models += gx.gen_sites_models(ctx.rng, ctx.n(3, 6))
+    mres = gx.run_models(models, n_docs=ctx.n(40, 50), mutants_per_doc=0)
     mstats = model_oracle(ctx, models, mres)
     nontrivial = mstats.pop("nontrivial")
     feats: Dict[str, int] = {}
